@@ -147,9 +147,13 @@ def as_form(values, form=None, array_only=False):
     return rec(a.tolist())
 
 
-def build(cfg, uniform_bits=None):
+def build(cfg, uniform_bits=None, inputs=None):
     """Construct the real sampler for cfg with scripted randomness.
     Returns (sampler, posterior recorder, rng, exact fn).
+
+    inputs (optional dict): receives the very objects that were handed to the constructor
+    ("start", "widths", "bounds" = (lower, upper), "positions", "inv_mass"), so that a check can
+    go on using them the way a caller would (e.g. modify them in place afterwards).
 
     cfg["input_form"] (optional): {"start" | "widths" | "bounds" | "positions" | "inv_mass":
     one of INPUT_FORMS} -- the form in which that argument is handed to the sampler
@@ -169,6 +173,8 @@ def build(cfg, uniform_bits=None):
     widths = as_form(cfg["widths"], forms.get("widths"))
     b = cfg["bounds"]
     bounds = None if b is None else (as_form(b[0], forms.get("bounds")), as_form(b[1], forms.get("bounds")))
+    if inputs is not None:
+        inputs.update(start=start, widths=widths, bounds=bounds)
     with warnings.catch_warnings():
         warnings.simplefilter("ignore")
         if kind in ("gibbs", "metro"):
@@ -201,13 +207,17 @@ def build(cfg, uniform_bits=None):
                 im = as_form(im, forms.get("inv_mass"), array_only=True)
             elif im is not None and forms.get("inv_mass") in INTEGER_FORMS:
                 im = int(im)
+            if inputs is not None:
+                inputs["inv_mass"] = im
             ch = HamiltonianChain(posterior=post, start=start, grad=post.gradient, epsilon=cfg["eps"],
                                   temperature=cfg["T"], bounds=bounds, inverse_mass=im, display_progress=False)
             ch.steps = cfg["steps"]
             ch.rng = rng
         elif kind == "ensemble":
-            ch = EnsembleSampler(posterior=post,
-                                 starting_positions=as_form(cfg["positions"], forms.get("positions"), array_only=True),
+            positions = as_form(cfg["positions"], forms.get("positions"), array_only=True)
+            if inputs is not None:
+                inputs["positions"] = positions
+            ch = EnsembleSampler(posterior=post, starting_positions=positions,
                                  alpha=cfg["alpha"], bounds=bounds, display_progress=False)
             ch.rng = rng
             ch.max_attempts = int(cfg.get("max_attempts", 100))
